@@ -128,7 +128,9 @@ bool QXmppBookmarkManager::setBookmarks(const QXmppBookmarkSet &bookmarks)
 /// \cond
 bool QXmppBookmarkManager::handleStanza(const QDomElement &stanza)
 {
-    if (stanza.tagName() == u"iq") {
+    // only responses are handled here, requests are answered with an error by the client
+    const auto type = stanza.attribute(u"type"_s);
+    if (stanza.tagName() == u"iq" && (type == u"result" || type == u"error")) {
         if (QXmppPrivateStorageIq::isPrivateStorageIq(stanza)) {
             QXmppPrivateStorageIq iq;
             iq.parse(stanza);
